@@ -126,7 +126,7 @@ SWEEP_ASSUME = ["reload sweeps: every setting the dispatcher is built from (targ
 
 
 def c18(prop, tier, res, replay=None):
-    return pure.check_cases(prop, tier, res, [RELOAD], [
+    return pure.check_cases(prop, tier, res, [RELOAD, CONCX], CONCX_ASSUME + [
         "the structure of reloadConfig (give-up points, write-lock sections with the fields they assign, accessor read sets, the accessor calls of one ingress request) is REGENERATED from internal/app/run.go and internal/ingress/http.go by go/ast on every run; the theorems are re-checked over it. The extractor recognises X.mu.Lock()/Unlock() sections, assignments X.f = ..., inlined runtimeState methods and the closure returned by one; other ways to publish state (atomics, channels) would not be seen",
         "behaviour is compared through a fixed probe set (ingress requests with every credential/body-size/method variant either configuration mentions, pull and worker authorisation per endpoint and token, admin token, publish per route) evaluated on the real handlers wired to the real runtime state; observation instants inside a reload are the verifhook points after each write section; rate limiters use a refill of 1 token / 10000 s and are drained, so answers do not depend on wall time; HMAC probes use real time and fresh nonces",
         "schedules: a request is held between two accessor calls by interposing on ingress.Server's accessor fields while a complete reload runs (every ingress probe x six gates); free-running goroutine interleavings are not explored",
